@@ -943,14 +943,40 @@ var sysValues32 = []uint32{0, 1, 0x7FFFFFFF, 0x80000000, 0xFFFFFFFF, 0xFFFFFFF0}
 func genTagCase(seed int64, k int, files []*corpus.File) *Case {
 	buildTagIndex(files)
 	short := k%3 == 2
+	window := false
 	if short {
 		k /= 3
+		// every other one: the count-window variant below
+		window, short = k%2 == 1, k%2 == 0
+		k /= 2
 	}
 	tg := tagList[k%len(tagList)]
 	k /= len(tagList)
 	sites := tagIndex[tg]
 	site := sites[k%len(sites)]
 	k /= len(sites)
+	if window && site.t.length >= 8 {
+		// one 16-bit field read as a count of s-byte records: the values around what fits
+		// in the bytes that follow it, and around twice that (a length check made in
+		// 16-bit words where bytes are meant, or on the wrong record size, still passes)
+		type wv struct{ s, mul, add int }
+		wvs := []wv{{2, 2, 0}, {4, 2, 0}, {6, 2, 0}, {8, 2, 0}, {12, 2, 0}, {16, 2, 0}, {2, 1, 1}, {4, 1, 1}, {6, 1, 1}, {8, 1, 1}}
+		w := wvs[k%len(wvs)]
+		k /= len(wvs)
+		span := site.t.length
+		if span > 256 {
+			span = 256
+		}
+		off := 2 * (k % (span / 2))
+		fit := (site.t.length - off - 2) / w.s
+		v := fit*w.mul + w.add
+		if v > 0xFFFF {
+			v = 0xFFFF
+		}
+		return &Case{File: site.file.ID, Kind: "tag-window-count",
+			Edits: []Edit{{Off: site.t.off + off, Data: put16(uint16(v))}},
+			Note:  fmt.Sprintf("%s+%d=%d (%d records of %d bytes fit in the rest of the table)", tagStr(tg), off, v, fit, w.s)}
+	}
 	if short && site.t.dirOff+16 <= len(site.file.Bytes()) {
 		// two-field variant: the table is cut short in the directory (length 4..40, so that
 		// only its header is left) and one 16-bit field of what is left - a count, a record
